@@ -106,6 +106,7 @@ SNIPPETS = [
     ("(o or 1) + 1", {"o": ("optint", [None, 0, 2])}),
     ("o + 1", {"o": ("optint", [None, 0, 2])}),
     ("o == 2", {"o": ("optint", [None, 0, 2])}),
+    ("int(o)", {"o": ("optint", [None, 0, 2, -3])}),
     ("a if b else None", {"a": ("int", SMALL), "b": ("bool", BOOLS)}),
     ("(a, s)[i]", {"a": ("int", [1]), "s": ("int", [7]), "i": ("int", [-3, -2, -1, 0, 1, 2])}),
     ("[a, b, 4][i]", {"a": ("int", [1, 2]), "b": ("int", [0]), "i": ("int", [-4, -3, -1, 0, 2, 3])}),
